@@ -336,7 +336,7 @@ func main() {
 		if v == nil {
 			// keep the models compiling (so that the drivers can still search for a failing input);
 			// the run is reported as "no longer shown" because `missing` is not empty
-			c.miss = append(c.miss, k.pkg+"."+k.name)
+			c.miss = append(c.miss, k.lean+"="+k.pkg+"."+k.name)
 			switch k.kind {
 			case "nat":
 				c.emit("def %s : Nat := 0 -- MISSING constant %s.%s\n", k.lean, k.pkg, k.name)
@@ -640,6 +640,23 @@ func main() {
 			c.miss = append(c.miss, "thrift.ApplicationException.Error format")
 		}
 		c.emit("/-- the fallback format of ApplicationException.Error for unknown type ids -/\ndef appExcUnknownFormat : String := %s\n", leanStr(format))
+	}
+
+	// argument of span.NewSpanCache(...) in protocol/thrift/binary.go
+	{
+		var sz int64 = -1
+		if e, pk := c.findVarInit("protocol/thrift", "spanCache"); e != nil {
+			if ce, ok := e.(*ast.CallExpr); ok && len(ce.Args) == 1 {
+				if v, ok := constInt(pk, ce.Args[0]); ok {
+					sz = v
+				}
+			}
+		}
+		if sz < 0 {
+			c.miss = append(c.miss, "thrift.spanCache size")
+			sz = 0
+		}
+		c.emit("\n/-- size given to span.NewSpanCache for the binary protocol's string/bytes allocator -/\ndef spanCacheBytes : Nat := %d\n", sz)
 	}
 
 	// narrow arithmetic census (informational)
